@@ -44,16 +44,53 @@ def forward_must(fn, transfer, init=frozenset(), universe=None):
     return res
 
 
+def _rpo(fn):
+    """reverse post-order numbering of blocks reachable from entry and catch handlers (cached on fn)."""
+    r = getattr(fn, '_rpo_cache', None)
+    if r is not None:
+        return r
+    order = []
+    seen = set()
+    roots = [fn.entry] + fn.catch_entry_blocks()
+    for root in roots:
+        if root in seen:
+            continue
+        stack = [(root, iter(fn.succs(root)))]
+        seen.add(root)
+        while stack:
+            b, it = stack[-1]
+            adv = False
+            for s in it:
+                if s not in seen:
+                    seen.add(s)
+                    stack.append((s, iter(fn.succs(s))))
+                    adv = True
+                    break
+            if not adv:
+                order.append(b)
+                stack.pop()
+    order.reverse()
+    r = {b: i for i, b in enumerate(order)}
+    fn._rpo_cache = r
+    return r
+
+
 def forward_may(fn, transfer, init=frozenset()):
-    """Forward may-dataflow (meet = union)."""
+    """Forward may-dataflow (meet = union), blocks processed in reverse post-order."""
+    import heapq
     blocks = fn.blocks
     preds = fn.preds()
+    rpo = _rpo(fn)
     out = {b: None for b in blocks}
     before = {}
-    work = deque([fn.entry] + fn.catch_entry_blocks())
-    inq = set(work)
-    while work:
-        b = work.popleft()
+    heap = []
+    inq = set()
+    for b in [fn.entry] + fn.catch_entry_blocks():
+        if b in rpo and b not in inq:
+            heapq.heappush(heap, (rpo[b], b))
+            inq.add(b)
+    while heap:
+        _, b = heapq.heappop(heap)
         inq.discard(b)
         st = frozenset()
         if b == fn.entry or blocks[b].get('label', {}).get('catch'):
@@ -62,14 +99,15 @@ def forward_may(fn, transfer, init=frozenset()):
             if out[p] is not None:
                 st = st | out[p]
         for e in blocks[b]['elems']:
-            before[e] = st | before.get(e, frozenset())
+            old = before.get(e)
+            before[e] = st if old is None else (st | old)
             st = transfer(st, fn.nodes[e])
         if out[b] is None or out[b] != st:
             out[b] = st
             for s in fn.succs(b):
-                if s not in inq:
+                if s not in inq and s in rpo:
                     inq.add(s)
-                    work.append(s)
+                    heapq.heappush(heap, (rpo[s], s))
     res = dict(before)
     for b, st in out.items():
         res[('out', b)] = st
